@@ -14,6 +14,8 @@
     metadata and rollup data are pushed unedited (no in-place modification between the split
     and the push); the loops over the block's rollups / the accumulated namespaces run to
     exhaustion.
+ T5 (K1) the per-namespace rollup data lists only grow (entry().or_default()); nothing replaces a
+    list accumulated by another rollup sharing the namespace or by earlier blocks.
  T4 (K8) writer/reader agreement: the relayer encodes SubmittedMetadataList /
     SubmittedRollupDataList and compresses with astria_core::brotli::compress_bytes; the
     conductor decompresses with decompress_bytes and decodes the same two types, metadata from
